@@ -24,6 +24,16 @@
 //	commit pass:  Rp (points only, opened at t=0, SetOptions after every op) and K (points+ranges,
 //	              opened at t=1, replaced at t=3 by its Clone{RefreshBatchView}, parent closed).
 //
+// Write forms. Every batch operation that has a public deferred form (SetDeferred, MergeDeferred,
+// DeleteDeferred, DeleteSizedDeferred, SingleDeleteDeferred, DeleteRangeDeferred,
+// RangeKeyDeleteDeferred: "op := b.XDeferred(lens); copy(op.Key, ..); copy(op.Value, ..);
+// op.Finish()") is a second symbol of the alphabet (bop.Def), so sequences mix both forms freely:
+// a deferred op first in the batch, right after a DeleteRange, after a range-key op, after a point
+// op, after LogData, direct after deferred. RangeKeySet / RangeKeyUnset / LogData have no exported
+// deferred form (rangeKeySetDeferred / rangeKeyUnsetDeferred are unexported). The model does not
+// know about forms: both forms of an operation mean the same. Nothing is read between XDeferred
+// and Finish (the API leaves the batch incomplete there).
+//
 // Environment knobs for experiments only: C05_BALLAST_MB, C05_GOGC.
 package c05
 
@@ -80,10 +90,12 @@ var handShapes = []dbState{
 	}},
 }
 
-// Alphabet of batch operations, simplest first; all on the keys the DB states use. Prefixes of the
-// list are the deeper plans' alphabets: the first core4N symbols (every operation kind but LogData,
-// whole-range and partial range keys) go to depth 3 in the quick tier and to depth 4 in the thorough
-// tier; the whole alphabet goes to depth 2 (quick) / 3 (thorough).
+// Alphabet of batch operations (direct form), simplest first; all on the keys the DB states use.
+// Prefixes of the list are the deeper plans' alphabets: the first core4N symbols (every operation
+// kind but LogData and DeleteSized, whole-range and partial range keys) go, in direct form, to depth
+// 3 in the quick tier and to depth 4 in the thorough tier; the first coreFormsN symbols (+
+// DeleteSized) with both write forms go to depth 3 (quick: on a 4-state menu; thorough: coarse
+// menu); the whole alphabet with both forms goes to depth 2, in direct form to depth 3 (thorough).
 var batchAlpha = []hx.Op{
 	{K: "set", Key: "a"},
 	{K: "del", Key: "a"},
@@ -96,6 +108,8 @@ var batchAlpha = []hx.Op{
 	{K: "rkdel", Key: "a", End: "c"},
 	{K: "rkset", Key: "b", End: "c", Suf: "@2"},
 	// --- end of core4 (10)
+	{K: "delsized", Key: "a", N: 2},
+	// --- end of the mixed-forms core (11)
 	{K: "delrange", Key: "b", End: "c"},
 	{K: "merge", Key: "b@1"},
 	{K: "logdata"},
@@ -104,6 +118,102 @@ var batchAlpha = []hx.Op{
 }
 
 const core4N = 10
+const coreFormsN = 11
+
+// bop is one symbol of the batch alphabet: an operation and the form of the write API it is
+// issued through (Def: the XDeferred + Finish form).
+type bop struct {
+	hx.Op
+	Def bool `json:"deferred,omitempty"`
+}
+
+func (o bop) String() string {
+	if o.Def {
+		return o.Op.String() + " [deferred]"
+	}
+	return o.Op.String()
+}
+
+func seqString(seq []bop) string {
+	s := make([]string, len(seq))
+	for i := range seq {
+		s[i] = seq[i].String()
+	}
+	return strings.Join(s, " | ")
+}
+
+// hasDeferred: the operation kinds with an exported deferred form in batch.go.
+func hasDeferred(k string) bool {
+	switch k {
+	case "set", "merge", "del", "delsized", "sdel", "delrange", "rkdel":
+		return true
+	}
+	return false
+}
+
+// makeAlpha returns the symbols of base in direct form followed, if forms, by the deferred form of
+// every symbol that has one (same order).
+func makeAlpha(base []hx.Op, forms bool) []bop {
+	var a []bop
+	for _, op := range base {
+		a = append(a, bop{Op: op})
+	}
+	if forms {
+		for _, op := range base {
+			if hasDeferred(op.K) {
+				a = append(a, bop{Op: op, Def: true})
+			}
+		}
+	}
+	return a
+}
+
+func nDirect(a []bop) int {
+	n := 0
+	for _, o := range a {
+		if !o.Def {
+			n++
+		}
+	}
+	return n
+}
+
+// applyBatchOp issues op on b through the form the symbol names.
+func applyBatchOp(b *pebble.Batch, op bop, defVal string) error {
+	if !op.Def {
+		return hx.ApplySimple(b, op.Op, defVal)
+	}
+	val := op.Val
+	if val == "" {
+		val = defVal
+	}
+	var d *pebble.DeferredBatchOp
+	switch op.K {
+	case "set":
+		d = b.SetDeferred(len(op.Key), len(val))
+		copy(d.Value, val)
+	case "merge":
+		d = b.MergeDeferred(len(op.Key), len(val))
+		copy(d.Value, val)
+	case "del":
+		d = b.DeleteDeferred(len(op.Key))
+	case "delsized":
+		// Value is filled in by DeleteSizedDeferred
+		d = b.DeleteSizedDeferred(len(op.Key), uint32(op.N))
+	case "sdel":
+		d = b.SingleDeleteDeferred(len(op.Key))
+	case "delrange":
+		d = b.DeleteRangeDeferred(len(op.Key), len(op.End))
+		copy(d.Value, op.End)
+	case "rkdel":
+		d = b.RangeKeyDeleteDeferred(len(op.Key), len(op.End))
+		copy(d.Value, op.End)
+	default:
+		return fmt.Errorf("c05: %s has no deferred form", op.K)
+	}
+	copy(d.Key, op.Key)
+	return d.Finish()
+}
 
 // dbCfg is hx's base configuration made cheap to open (a fresh DB is opened per case): 32 KiB
 // memtable (zeroing a 256 KiB arena per Open dominated the run time; batches stay far below the
@@ -132,7 +242,7 @@ type dbState struct {
 type Case struct {
 	State string  `json:"state"`
 	Hist  []hx.Op `json:"hist"`
-	Seq   []hx.Op `json:"seq"`
+	Seq   []bop   `json:"seq"`
 	Phase string  `json:"phase,omitempty"` // informational: where it failed
 	Step  int     `json:"step,omitempty"`
 }
@@ -486,7 +596,7 @@ func at(f *failure, phase string, step int) *failure {
 }
 
 // runCase runs one (DB state, batch sequence) pair. skipped = outside the SingleDelete contract.
-func runCase(c *vlib.Ctx, st *dbState, seq []hx.Op, verbose bool) (f *failure, skipped bool, r *runner) {
+func runCase(c *vlib.Ctx, st *dbState, seq []bop, verbose bool) (f *failure, skipped bool, r *runner) {
 	r = &runner{c: c, verbose: verbose}
 	d := len(seq)
 	// models first: the generator guards the SingleDelete contract against DB + batch
@@ -498,11 +608,11 @@ func runCase(c *vlib.Ctx, st *dbState, seq []hx.Op, verbose bool) (f *failure, s
 	batchOnly := hx.NewModel(bounds...)
 	m := r.dbm.Clone()
 	for j, op := range seq {
-		if !m.Legal(op) {
+		if !m.Legal(op.Op) {
 			return nil, true, r
 		}
-		m.Apply(op, bval(j))
-		batchOnly.Apply(op, bval(j))
+		m.Apply(op.Op, bval(j))
+		batchOnly.Apply(op.Op, bval(j))
 		r.views[j+1] = m.Clone()
 	}
 
@@ -577,7 +687,7 @@ func runCase(c *vlib.Ctx, st *dbState, seq []hx.Op, verbose bool) (f *failure, s
 	}
 	for j, op := range seq {
 		t := j + 1
-		if err := hx.ApplySimple(b, op, bval(j)); err != nil {
+		if err := applyBatchOp(b, op, bval(j)); err != nil {
 			return at(&failure{class: "batch-op-error", desc: fmt.Sprintf("%s: %v", op, err)}, "discard", t), false, r
 		}
 		c.Trans(1)
@@ -631,7 +741,7 @@ func runCase(c *vlib.Ctx, st *dbState, seq []hx.Op, verbose bool) (f *failure, s
 	}
 	for j, op := range seq {
 		t := j + 1
-		if err := hx.ApplySimple(b, op, bval(j)); err != nil {
+		if err := applyBatchOp(b, op, bval(j)); err != nil {
 			return at(&failure{class: "batch-op-error", desc: fmt.Sprintf("%s: %v", op, err)}, "commit", t), false, r
 		}
 		c.Trans(1)
@@ -723,7 +833,7 @@ func runCase(c *vlib.Ctx, st *dbState, seq []hx.Op, verbose bool) (f *failure, s
 }
 
 // nonIndexed checks that reads on a write-only batch holding seq return ErrNotIndexed.
-func nonIndexed(d *pebble.DB, seq []hx.Op) (f *failure) {
+func nonIndexed(d *pebble.DB, seq []bop) (f *failure) {
 	nb := d.NewBatch()
 	defer func() {
 		if p := recover(); p != nil {
@@ -731,7 +841,7 @@ func nonIndexed(d *pebble.DB, seq []hx.Op) (f *failure) {
 		}
 	}()
 	for j, op := range seq {
-		if err := hx.ApplySimple(nb, op, bval(j)); err != nil {
+		if err := applyBatchOp(nb, op, bval(j)); err != nil {
 			return &failure{class: "batch-op-error", desc: fmt.Sprintf("non-indexed batch %s: %v", op, err)}
 		}
 	}
@@ -941,7 +1051,7 @@ func watchdog(c *vlib.Ctx, stop chan struct{}) {
 		inflight.Range(func(k, _ any) bool {
 			fl := k.(*flight)
 			if time.Since(fl.start) > hangLimit {
-				c.Violation("hang", fmt.Sprintf("DB state %s [%s], batch [%s]: the case did not finish within %s (a read or write call does not return)", fl.cs.State, hx.HistString(fl.cs.Hist), hx.HistString(fl.cs.Seq), hangLimit), fl.cs)
+				c.Violation("hang", fmt.Sprintf("DB state %s [%s], batch [%s]: the case did not finish within %s (a read or write call does not return)", fl.cs.State, hx.HistString(fl.cs.Hist), seqString(fl.cs.Seq), hangLimit), fl.cs)
 				c.Incomplete("aborted: a case hung (violation class hang)")
 				c.WriteAndExit()
 			}
@@ -951,9 +1061,60 @@ func watchdog(c *vlib.Ctx, stop chan struct{}) {
 }
 
 type plan struct {
+	name       string
 	states     []*dbState
-	alpha      []hx.Op
+	alpha      []bop
 	minD, maxD int // sequence lengths; shorter sequences of a deeper plan are covered by an earlier one
+	// covered reports a sequence (as symbol indices) that an earlier plan of the same run executes on
+	// every state of this plan; such sequences are not run again (nil: none).
+	covered     func(sym []int) bool
+	coveredNote string
+}
+
+// formsMenu is the state menu of the quick tier's depth-3 mixed-forms plan: the hand-built shapes
+// (keys under an L0 file + merge stack, keys under a flushed range tombstone, range keys in two
+// layers) and the first coarse history state with the most visible point keys among those in which
+// SingleDelete a is inside its contract (the shapes do not allow it).
+func formsMenu(coarse []*dbState) []*dbState {
+	var best *dbState
+	for _, st := range coarse {
+		if !strings.HasPrefix(st.Name, "hist:") || !st.model.CanSingleDelete("a") {
+			continue
+		}
+		if best == nil || len(st.model.Points()) > len(best.model.Points()) {
+			best = st
+		}
+	}
+	var menu []*dbState
+	if best != nil {
+		menu = append(menu, best)
+	}
+	for _, st := range coarse {
+		if strings.HasPrefix(st.Name, "shape:") {
+			menu = append(menu, st)
+		}
+	}
+	return menu
+}
+
+// prevClass names what precedes a deferred operation in its batch (outcome histogram).
+func prevClass(seq []bop, j int) string {
+	if j == 0 {
+		return "first-op-of-batch"
+	}
+	form := "direct"
+	if seq[j-1].Def {
+		form = "deferred"
+	}
+	switch seq[j-1].K {
+	case "delrange":
+		return form + "-rangedel"
+	case "rkset", "rkunset", "rkdel":
+		return form + "-rangekey-op"
+	case "logdata":
+		return "logdata"
+	}
+	return form + "-point-op"
 }
 
 func TestCheck(t *testing.T) {
@@ -976,7 +1137,7 @@ func TestCheck(t *testing.T) {
 			}
 			st := findState(nil, cs)
 			f, skipped, _ := runCase(c, st, cs.Seq, true)
-			fmt.Printf("replay: state=%s seq=[%s] skipped=%v failure=%+v\n", cs.State, hx.HistString(cs.Seq), skipped, f)
+			fmt.Printf("replay: state=%s seq=[%s] skipped=%v failure=%+v\n", cs.State, seqString(cs.Seq), skipped, f)
 			if f != nil {
 				cs.Phase, cs.Step = f.phase, f.step
 				c.Violation(f.class, describe(st, cs.Seq, f), cs)
@@ -1001,16 +1162,36 @@ func TestCheck(t *testing.T) {
 		}
 		c.Note("db_states_coarse", stateNames(coarse))
 		var plans []plan
+		allForms := makeAlpha(batchAlpha, true)              // every symbol in both write forms
+		allDirect := makeAlpha(batchAlpha, false)            // direct form only
+		coreDirect := makeAlpha(batchAlpha[:core4N], false)  // core, direct form only
+		coreForms := makeAlpha(batchAlpha[:coreFormsN], true) // core + DeleteSized in both write forms
 		if !c.Thorough() {
+			menu := formsMenu(coarse)
+			c.Note("db_states_mixed_forms_depth3", stateNames(menu))
 			plans = []plan{
-				{states: coarse, alpha: batchAlpha, minD: 0, maxD: 2},
-				{states: coarse, alpha: batchAlpha[:core4N], minD: 3, maxD: 3},
+				{name: "both-forms", states: coarse, alpha: allForms, minD: 0, maxD: 2},
+				{name: "core-direct", states: coarse, alpha: coreDirect, minD: 3, maxD: 3},
+				{name: "core-both-forms", states: menu, alpha: coreForms, minD: 3, maxD: 3,
+					// the direct symbols are the first coreFormsN of coreForms, the first core4N of them
+					// are plan core-direct's alphabet, and menu is a subset of the coarse menu
+					covered: func(sym []int) bool {
+						for _, s := range sym {
+							if s >= core4N {
+								return false
+							}
+						}
+						return true
+					},
+					coveredNote: fmt.Sprintf("the %d all-direct sequences over the first %d symbols, run by plan core-direct on these states", core4N*core4N*core4N, core4N)},
 			}
 		} else {
 			c.Note("db_states_fine", stateNames(fine))
 			plans = []plan{
-				{states: fine, alpha: batchAlpha, minD: 0, maxD: 3},
-				{states: coarse, alpha: batchAlpha[:core4N], minD: 4, maxD: 4},
+				{name: "both-forms", states: fine, alpha: allForms, minD: 0, maxD: 2},
+				{name: "direct", states: fine, alpha: allDirect, minD: 3, maxD: 3},
+				{name: "core-both-forms", states: coarse, alpha: coreForms, minD: 3, maxD: 3},
+				{name: "core-direct", states: coarse, alpha: coreDirect, minD: 4, maxD: 4},
 			}
 		}
 		var notes []string
@@ -1025,10 +1206,19 @@ func TestCheck(t *testing.T) {
 			nSeq := vlib.SeqCount(k, minD, p.maxD)
 			states := p.states
 			nS := len(states)
-			n := (nSeq + extra) * nS
+			// the sequence indices this plan runs (all, or all but the covered ones), in order
+			sis := make([]int, 0, nSeq+extra)
+			for si := 0; si < nSeq+extra; si++ {
+				if p.covered != nil && si >= extra && p.covered(vlib.SeqDecode(si-extra, k, minD, p.maxD)) {
+					continue
+				}
+				sis = append(sis, si)
+			}
+			nCovered := nSeq + extra - len(sis)
+			n := len(sis) * nS
 			done, complete := c.Each(n, func(i int) {
-				si, st := i/nS, states[i%nS]
-				var seq []hx.Op
+				si, st := sis[i/nS], states[i%nS]
+				var seq []bop
 				if si >= extra {
 					for _, s := range vlib.SeqDecode(si-extra, k, minD, p.maxD) {
 						seq = append(seq, p.alpha[s])
@@ -1060,8 +1250,21 @@ func TestCheck(t *testing.T) {
 					if d > 0 {
 						final, db := r.views[d].String(), r.dbm.String()
 						bo := hx.NewModel(bounds...)
+						nDef := 0
 						for j, op := range seq {
-							bo.Apply(op, bval(j))
+							bo.Apply(op.Op, bval(j))
+							if op.Def {
+								nDef++
+								c.Outcome("deferred-op-after:" + prevClass(seq, j))
+							}
+						}
+						switch nDef {
+						case 0:
+							c.Outcome("forms:all-direct")
+						case d:
+							c.Outcome("forms:all-deferred")
+						default:
+							c.Outcome("forms:mixed")
 						}
 						if final != db {
 							c.Outcome("batch-changes-visible-state")
@@ -1069,25 +1272,29 @@ func TestCheck(t *testing.T) {
 							c.Outcome("batch-leaves-visible-state")
 						}
 						if len(st.Hist) > 0 && final != db && final != bo.String() {
-							c.Nontrivial(vlib.Hash(st.Name, hx.HistString(seq)))
+							c.Nontrivial(vlib.Hash(st.Name, seqString(seq)))
 						}
 					}
-					if i%5003 == 0 {
-						c.Sample(map[string]any{"state": st.Name, "batch": hx.HistString(seq), "overlay": r.views[d].String(), "db": r.dbm.String()})
+					if i%5003 == 0 || (i%1009 == 0 && len(seq) > 0 && seq[len(seq)-1].Def) {
+						c.Sample(map[string]any{"state": st.Name, "batch": seqString(seq), "overlay": r.views[d].String(), "db": r.dbm.String()})
 					}
 				}
 			})
-			notes = append(notes, fmt.Sprintf("%d DB states x batch alphabet %d, sequences of length %d..%d: %d/%d cases", nS, k, p.minD, p.maxD, done, n))
+			desc := fmt.Sprintf("plan %s: %d DB states x batch alphabet of %d symbols (%d direct + %d deferred), sequences of length %d..%d", p.name, nS, k, nDirect(p.alpha), k-nDirect(p.alpha), p.minD, p.maxD)
+			if nCovered > 0 {
+				desc += fmt.Sprintf(" except %s", p.coveredNote)
+			}
+			notes = append(notes, fmt.Sprintf("%s: %d/%d cases", desc, done, n))
 			if !complete {
-				c.Incomplete(fmt.Sprintf("budget expired after %d of %d cases of plan (%d states, alphabet %d, lengths %d..%d); earlier plans complete; cases are ordered by sequence (shortest first), all DB states per sequence", done, n, nS, k, p.minD, p.maxD))
+				c.Incomplete(fmt.Sprintf("budget expired after %d of %d cases of %s; earlier plans complete; cases are ordered by sequence (shortest first, direct symbols before deferred ones), all DB states per sequence", done, n, desc))
 				break
 			}
 		}
 		c.Note("plans", notes)
-		c.Note("scope", fmt.Sprintf("DB states: the %d histories of depth <=2 over %d symbols deduplicated to %d (coarse: visible state + LSM shape) / %d (fine: + SingleDelete class + memtable contents), + %d hand-built shapes; every case runs its batch sequence on an indexed batch that is discarded and then on a second (recycled) indexed batch that is committed, with all checks after every batch op", total, len(dbAlpha), len(coarse)-len(handShapes), len(fine)-len(handShapes), len(handShapes)))
+		c.Note("scope", fmt.Sprintf("DB states: the %d histories of depth <=2 over %d symbols deduplicated to %d (coarse: visible state + LSM shape) / %d (fine: + SingleDelete class + memtable contents), + %d hand-built shapes; batch symbols = operation x write form (direct call, or XDeferred + copy + Finish for the 7 kinds that export one); every case runs its batch sequence, with the forms its symbols name, on an indexed batch that is discarded and then on a second (recycled) indexed batch that is committed, with all checks after every batch op", total, len(dbAlpha), len(coarse)-len(handShapes), len(fine)-len(handShapes), len(handShapes)))
 	})
 }
 
-func describe(st *dbState, seq []hx.Op, f *failure) string {
-	return fmt.Sprintf("DB state %s [%s], batch [%s], %s phase, after batch op %d: %s", st.Name, hx.HistString(st.Hist), hx.HistString(seq), f.phase, f.step, f.desc)
+func describe(st *dbState, seq []bop, f *failure) string {
+	return fmt.Sprintf("DB state %s [%s], batch [%s], %s phase, after batch op %d: %s", st.Name, hx.HistString(st.Hist), seqString(seq), f.phase, f.step, f.desc)
 }
